@@ -2,7 +2,7 @@
 (***************************************************************************)
 (* T1 for C23: the call layer of ModelStore keeps the declarative          *)
 (* invariant.                                                              *)
-(*  HSpec   every history of ModelStoreMenu!Histories (the full cross      *)
+(*  HSpec   every history of ModelStoreMenu!HistSet (the full cross      *)
 (*          product call x target type x value that is also replayed on    *)
 (*          the library) is run through the call layer, both branches      *)
 (*          where the verdict is unspecified.                              *)
@@ -23,7 +23,7 @@ Justified(s) == (Enabled(m, s) /\ Verdict(m, s) = "no")  => ~StoreOK(Apply(m, s)
 Safe(s)      == (Enabled(m, s) /\ Verdict(m, s) = "yes") => StoreOK(Apply(m, s))
 
 \* ---------- the histories of the case space ----------
-HInit == Init /\ n = 0 /\ h \in Histories
+HInit == Init /\ n = 0 /\ h \in HistSet
 HNext == /\ n < Len(h.steps) /\ n' = n + 1 /\ h' = h
          /\ LET s == h.steps[n + 1] IN Accepts(s) \/ Rejects(s)
 HSpec == HInit /\ [][HNext]_mcvars
